@@ -63,6 +63,9 @@ def budget(tier):
 
 
 def _gen(g):
+    if g.chance(4):
+        return {"kind": "twoloops", "config": g.choice(["S", "U"]), "prior": g.int(0, 3), "overlap": g.chance(80),
+                "total": 1, "default": True, "delays": [], "calls": [], "ctl": []}
     n = g.int(1, 6)
     calls = [{"abandon": g.chance(35), "mode": g.weighted([(65, "value"), (22, "raise"), (13, "retexc")]),
               "cb": g.weighted([(56, None), (18, "run_sync"), (18, "run"), (8, "run_shielded")]), "cc": g.chance(35),
@@ -80,7 +83,7 @@ def _gen(g):
         rest = [["open", 0], ["settle", 0], ["entered", 2], ["open", 1], ["open", 2]]
         if g.bool():
             rest[0], rest[3] = rest[3], rest[0]
-        return {"config": g.choice(["S", "S", "U"]), "total": g.choice([1, 1, 2]), "default": g.chance(25),
+        return {"config": g.choice(["S", "S", "U", "E"]), "total": g.choice([1, 1, 2]), "default": g.chance(25),
                 "delays": [g.int(0, 3) for _ in range(g.int(0, 5))], "calls": calls, "ctl": ctl + rest,
                 "callers": [[0, 1], [2]], "after": {"2": 1} if g.chance(70) else {}}
     if g.chance(8):
@@ -92,7 +95,7 @@ def _gen(g):
         calls[0].update(cb="run_shielded", abandon=False, shielded=False, mode="value")
         ctl = [["entered", 0], ["open", 0], ["cbwait", 0], ["cancel", 0], ["yield", g.int(1, 3)], ["settle", 0],
                ["entered", 1], ["cbopen", 0], ["open", 1]]
-        return {"config": g.choice(["S", "S", "U"]), "total": 1, "default": g.chance(25),
+        return {"config": g.choice(["S", "E", "U", "E"]), "total": 1, "default": g.chance(25),
                 "delays": [g.int(0, 3) for _ in range(g.int(0, 5))], "calls": calls, "ctl": ctl,
                 "callers": [[0], [1]], "after": {"1": 0}}
     ctl = []
@@ -111,7 +114,7 @@ def _gen(g):
     callers = [[i for i in range(n) if owner[i] == c] for c in range(m)]
     callers = [c for c in callers if c]
     after = {str(i): g.int(0, i - 1) for i in range(1, n) if g.chance(20)}
-    return {"config": g.choice(["S", "S", "U"]), "total": g.int(1, 3), "default": g.chance(25),
+    return {"config": g.choice(["S", "S", "U", "E"]), "total": g.int(1, 3), "default": g.chance(25),
             "delays": [g.int(0, 3) for _ in range(g.int(0, 5))], "calls": calls, "ctl": ctl, "callers": callers,
             "after": after}
 
@@ -460,6 +463,8 @@ def run_once(case, out, stats):
         def factory():
             loop = RLoop()
             loop.delays = list(case["delays"])
+            if case["config"] == "E":
+                loop.set_task_factory(asyncio.eager_task_factory)
             return loop
     try:
         anyio.run(main, backend_options={"loop_factory": factory})
@@ -468,8 +473,67 @@ def run_once(case, out, stats):
             g_.set()
 
 
+def run_twoloops(case, out, stats):
+    """to_thread used from two event loops of one process: loop A (anyio.run) first leaves idle workers behind, then a
+    blocking call of A opens a portal (loop B) whose own to_thread call must come back to B."""
+    box = {}
+    gates = [threading.Event() for _ in range(4)]
+
+    def plain(i):
+        if case["overlap"]:
+            gates[i].wait(5)
+        return ("v", i, threading.get_ident())
+
+    async def b_call():
+        ident_b = threading.get_ident()
+        r = await to_thread.run_sync(plain, 3)
+        return (ident_b, r)
+
+    def blocking_library_code():
+        from anyio.from_thread import start_blocking_portal
+        with start_blocking_portal() as portal:
+            fut = portal.start_task_soon(b_call)
+            try:
+                box["b"] = fut.result(timeout=10)
+            except BaseException as e:  # noqa: BLE001
+                box["b_error"] = type(e).__name__
+                fut.cancel()
+
+    async def main():
+        async with create_task_group() as tg:
+            for i in range(case["prior"]):
+                tg.start_soon(to_thread.run_sync, plain, i)
+            await anyio.sleep(0.01)
+            for g_ in gates:
+                g_.set()
+        await anyio.sleep(0.005)
+        with anyio.move_on_after(20):
+            await to_thread.run_sync(blocking_library_code, abandon_on_cancel=True)
+            box["a_done"] = True
+
+    if case["config"] == "U":
+        import uvloop
+        anyio.run(main, backend_options={"loop_factory": uvloop.new_event_loop})
+    else:
+        anyio.run(main)
+    stats["two_loops"] += 1
+    if not box.get("a_done") or "b" not in box:
+        out.bad("call-never-ended", "second-loop", f"{case}: to_thread.run_sync called in a second event loop did not "
+                                                   f"return ({box.get('b_error')})")
+    else:
+        ident_b, r = box["b"]
+        if r[:2] != ("v", 3):
+            out.bad("wrong-result", "second-loop", f"{case}: {r!r}")
+
+
 def run_case(case) -> Outcome:
     out = Outcome()
+    if case.get("kind") == "twoloops":
+        stats = {"two_loops": 0}
+        run_twoloops(case, out, stats)
+        out.nontrivial = case["prior"] >= 2
+        out.labels = ["two-loops", "config-" + case["config"]]
+        return out
     stats = dict.fromkeys(["cancelled_while_running", "cancelled_before_start", "more_calls_than_tokens",
                            "watchdog_rerun", "native_cancel_while_running", "caller_with_several_calls",
                            "stall_rerun", "settle_checks", "callback_parked_behind_shield"], 0)
